@@ -28,6 +28,10 @@ def run(rep):
     p8(rep, w)
     p9(rep, w)
     c01.r1(rep, w)     # memory safety needs complete tracing: an untraced edge is a use-after-free at the next collection
+    import c12
+    c12.h4(rep, w)     # a map borrowed mutably while its key is formatted for the error message: RefCell panic
+    import c04_narrow
+    c04_narrow.b4(rep, w)   # a truncated jump operand makes the VM execute operand bytes as instructions
     import c17
     c17.l6(rep, w, 'C02')   # a stale throw site makes runtime_error index the wrong chunk's line table (host panic)
 
